@@ -76,6 +76,7 @@ pub fn profile_for(id: &str, tier: Tier, ctx: &Ctx) -> Profile {
             p.p_delay = 45;
             p.p_fail_step = 28;
             p.max_steps = 2;
+            p.p_focus_serial_retry = 30;
         }
         "C08" => {
             p.p_fail_fast = 85;
@@ -206,7 +207,7 @@ pub fn judge(id: &str, j: &Judged, ctx: &Ctx) -> CaseOut {
     if case.has_delay() {
         labels.push("retry_delay");
     }
-    if log.quiescent.iter().any(|q| q.action == "sleep") {
+    if log.quiescent.iter().any(|q| q.action.starts_with("sleep")) {
         labels.push("sleep_action");
     }
     if log.events.iter().any(|e| matches!(e.k, super::driver::EvKind::ParserError(_))) {
@@ -217,6 +218,12 @@ pub fn judge(id: &str, j: &Judged, ctx: &Ctx) -> CaseOut {
     }
     if case.custom_classifier {
         labels.push("custom_classifier");
+    }
+    if log.max_delayed_outstanding >= 2 {
+        labels.push("two_delayed_retries_outstanding");
+    }
+    if log.quiescent.iter().any(|q| q.action == "sleep-short") {
+        labels.push("sleep_short");
     }
     if nt {
         labels.push("nontrivial");
